@@ -578,7 +578,7 @@ func (h *hist) finish(label string) {
 		var bad []string
 		for ; it.Valid(); it.Next() {
 			k := string(it.Key())
-			if si == 0 && k == lastHeaderKey {
+			if si == 0 && (k == lastHeaderKey || physical(k)) {
 				continue
 			}
 			if v, ok := exp[k]; !ok || v != string(it.Value()) {
@@ -589,6 +589,9 @@ func (h *hist) finish(label string) {
 		it.Close()
 		delete(exp, lastHeaderKey)
 		for k := range exp {
+			if si == 0 && physical(k) {
+				continue
+			}
 			bad = append(bad, storeName[si]+show(k)+"(missing)")
 		}
 		if len(bad) > 0 {
@@ -597,6 +600,13 @@ func (h *hist) finish(label string) {
 		}
 	}
 	nFull.Add(1)
+}
+
+// physical: the base store (dbadapter) is mounted on the same raw DB as the main store's B+tree, without a prefix, so
+// iterating it also yields the tree's physical records (one-byte prefixes B V R M O F of tm2/pkg/bptree/const.go).
+// The logical base-store keys (oid: tid: pkgidx: last_header) are lower-case.
+func physical(k string) bool {
+	return len(k) > 0 && strings.IndexByte("BVRMOF", k[0]) >= 0
 }
 
 // commitLayer records the layers (read after EndBlock) that Commit is about to flush.
@@ -1364,7 +1374,9 @@ func (t p1task) run() {
 			}
 			tx := rc.build(h.m)
 			r.Distinct(label)
-			if h.deliver(tx, label) || h.dirty {
+			if (h.deliver(tx, label) && t.state == "S0") || h.dirty {
+				// S0 means "no pubkey stored yet": an accepted tx ends that; S1 chains simply carry on (every tx is
+				// signed against the model's current numbers/sequences)
 				h.finish(label)
 				fresh()
 			}
@@ -1429,7 +1441,10 @@ func alphabet() []opDef {
 // checkAlphabet: CheckTx / DeliverTx mixes over a smaller tx set.
 func checkAlphabet() []opDef {
 	txs := alphabet()
-	pick := []int{0, 1, 2, 5, 6}
+	pick := []int{0, 2, 5}
+	if r.Thorough() {
+		pick = []int{0, 1, 2, 5, 6}
+	}
 	var ops []opDef
 	for _, i := range pick {
 		ops = append(ops, txs[i])
@@ -1602,13 +1617,11 @@ func restartHistories(sa signedAlphabet) [][]int {
 	}
 	R := len(sa.ops) - 1 // restart op appended by caller
 	hs := [][]int{
-		{idx("A:x@seq0"), R},
 		{idx("AB@seq0,0"), R},
-		{idx("M{K1,K2}@seq0"), R},
-		{idx("A:msg-fails@seq0"), idx("next-block"), R},
+		{idx("M{K1,K2}@seq0"), idx("next-block"), R},
 	}
 	if r.Thorough() {
-		hs = append(hs, []int{idx("A:x@seq0"), idx("A:x@seq1"), R}, []int{R, idx("A:x@seq0")}, []int{idx("B:x@seq0"), R, idx("AB@seq0,1")},
+		hs = append(hs, []int{idx("A:x@seq0"), R}, []int{idx("A:msg-fails@seq0"), idx("next-block"), R}, []int{idx("A:x@seq0"), idx("A:x@seq1"), R}, []int{R, idx("A:x@seq0")}, []int{idx("B:x@seq0"), R, idx("AB@seq0,1")},
 			[]int{idx("A:x@seq0"), R, idx("A:x@seq1"), R})
 	}
 	return hs
@@ -1629,6 +1642,20 @@ func main() {
 		t0 = time.Now()
 		h = newHist()
 		fmt.Println("second chain", time.Since(t0))
+		{
+			bk, _ := h.c.Base.VerifStoreKeys()
+			cnt := map[string]int{}
+			for _, e := range readKVs(h.c.Base.VerifDeliverMultiStore().GetStore(bk), nil, nil) {
+				p := e.k
+				if i := strings.IndexAny(p, ":/"); i >= 0 && i < 12 {
+					p = p[:i+1]
+				} else if len(p) > 1 {
+					p = p[:1]
+				}
+				cnt[show(p)]++
+			}
+			fmt.Println("base key prefixes:", cnt)
+		}
 		t0 = time.Now()
 		rc := newRecipe(send(A.Addr, C.Addr, 100))
 		rc.slots[0].seqD = 1
@@ -1645,6 +1672,12 @@ func main() {
 		pprof.StopCPUProfile()
 		return
 	}
+	if p := os.Getenv("VERIF_C15_FULLPROFILE"); p != "" {
+		f, _ := os.Create(p)
+		pprof.StartCPUProfile(f)
+		defer pprof.StopCPUProfile()
+	}
+	tStart := time.Now()
 	g := newHist() // first chain: loads the stdlibs once (cached for all later chains)
 	genesis := g.m.clone()
 	{
@@ -1656,7 +1689,7 @@ func main() {
 	// part 1
 	cat := catalogue()
 	var tasks []func()
-	chunk := 40
+	chunk := len(cat)
 	for _, b := range bases {
 		for _, st := range []string{"S0", "S1"} {
 			for lo := 0; lo < len(cat); lo += chunk {
@@ -1711,7 +1744,10 @@ func main() {
 		})
 	}
 	// longest tasks first is not needed; interleave for balance
+	tFirst := time.Since(tStart)
 	r.ParFor(len(tasks), func(i int) { tasks[i]() })
+	pprof.StopCPUProfile()
+	fmt.Printf("first chain %.1fs, %d tasks %.1fs\n", tFirst.Seconds(), len(tasks), time.Since(tStart).Seconds()-tFirst.Seconds())
 
 	r.Sample(map[string]any{"part": 1, "case": "2signers-2msgs/S1/doc-seq+1@signer1", "meaning": "B signs over its sequence+1 while A's signature is valid: fee deduction and A's sequence increment made before B's check must be discarded"})
 	r.Sample(map[string]any{"part": 1, "case": "1signer/S0/signed-by-Z,pubkey-field=Z(squat)", "meaning": "first use of account A: an attacker supplies its own pubkey + valid signature; must be rejected and A's pubkey slot stay empty"})
